@@ -912,27 +912,63 @@ class CallGraph:
                 targets.append(r[1])
         return (targets, complete)
 
-    def _table_targets(self, fn, f: Func):
-        """`TABLE[k][0](...)`: every class / function named in the constant TABLE"""
-        root = fn
-        while isinstance(root, ast.Subscript):
-            root = root.value
-        if not isinstance(root, ast.Name) or self._is_local(root.id, f):
+    def _table_targets(self, fn, f: Func, depth=0):
+        """`TABLE[k][0](...)`, `TABLE.get(k)(...)`, `self.TABLE[k](...)`, or a local bound to one of these:
+        every class / function / method named in the constant TABLE (module constant or class attribute)"""
+        if depth > 3:
             return None
-        r = f.module.resolve_name(root.id)
-        if not r or r[0] != "const":
+        root = fn
+        while True:
+            if isinstance(root, ast.Subscript):
+                root = root.value
+            elif isinstance(root, ast.Call) and isinstance(root.func, ast.Attribute) and root.func.attr in ("get", "__getitem__"):
+                root = root.func.value
+            else:
+                break
+        expr, mod, cls = None, None, None
+        if isinstance(root, ast.Name):
+            if self._is_local(root.id, f):
+                if root is fn:
+                    rhs = [x for x in self._assignments_to_name(f, root.id)]
+                    if len(rhs) == 1 and isinstance(rhs[0], ast.AST) and not isinstance(rhs[0], ast.Name):
+                        return self._table_targets(rhs[0], f, depth + 1)
+                return None
+            r = f.module.resolve_name(root.id)
+            if not r or r[0] != "const":
+                return None
+            expr, mod = r[2], r[1]
+        elif isinstance(root, ast.Attribute) and isinstance(root.value, ast.Name):
+            sn = self.self_name(f)
+            if sn is not None and root.value.id == sn:
+                cls = self.type_of(root.value, f)
+            else:
+                r = f.module.resolve_name(root.value.id) if not self._is_local(root.value.id, f) else None
+                cls = r[1] if r and r[0] == "class" else None
+            if not isinstance(cls, Cls):
+                return None
+            expr = cls.lookup_attr(root.attr)
+            mod = cls.module
+            if expr is None:
+                return None
+        else:
+            return None
+        if not isinstance(expr, (ast.Dict, ast.List, ast.Tuple, ast.Set)):
             return None
         out = []
-        for n in ast.walk(r[2]):
+        for n in ast.walk(expr):
             if isinstance(n, ast.Name):
-                rr = r[1].resolve_name(n.id)
+                rr = mod.resolve_name(n.id)
                 if rr and rr[0] == "class":
                     for m in self._ctor(rr[1]):
                         if m not in out:
                             out.append(m)
                 elif rr and rr[0] == "func" and rr[1] not in out:
                     out.append(rr[1])
-        return out
+                elif cls is not None and n.id in cls.methods and cls.methods[n.id] not in out:
+                    out.append(cls.methods[n.id])   # a class-level table of the class's own functions
+            elif isinstance(n, ast.Constant) and isinstance(n.value, str) and cls is not None and n.value in cls.methods:
+                pass
+        return out or None
 
     def resolve_call(self, call: ast.Call, f: Func):
         """-> (targets: list[Func], kind: str).  kind 'external' = not repository code;
@@ -974,6 +1010,9 @@ class CallGraph:
                 rhs = self._assignments_to_name(f, fn.id)
                 if rhs and all(isinstance(x, ast.Lambda) for x in rhs if not isinstance(x, tuple)) and not any(isinstance(x, tuple) for x in rhs):
                     return [], "lambda"
+                tt = self._table_targets(fn, f)
+                if tt:
+                    return tt, "table"
                 return (pc[0] if pc else []), "unknown"
             return [], "unknown"
         if isinstance(fn, ast.Attribute):
@@ -1015,6 +1054,9 @@ class CallGraph:
         if isinstance(fn, ast.Lambda):
             return [], "lambda"
         if isinstance(fn, ast.Call):
+            tt = self._table_targets(fn, f)
+            if tt:
+                return tt, "table"
             return [], "unknown"
         return [], "unknown"
 
@@ -3142,6 +3184,15 @@ class _Run:
             passed = self._stream_args(e, st)
             self.unknown_calls.append(e)
             self.loose.append("call of a computed value `%s`" % ast.unparse(e)[:60])
+            # an object that holds a tracked stream (self -> self.buff) is handed to code we cannot see
+            holders = []
+            for a in list(e.args) + [kw.value for kw in e.keywords] + ([e.func.value] if isinstance(e.func, ast.Attribute) else []):
+                d = dotted(a) if isinstance(a, (ast.Name, ast.Attribute)) else None
+                if d:
+                    holders.append(d)
+            for k in list(st.keys()) + list(self._function_stream_keys()):
+                if not k.startswith("#") and any(k.startswith(h + ".") for h in holders) and k not in passed:
+                    passed.append(k)
             if passed:
                 self.unresolved.append(e)
                 for k in passed:
